@@ -495,11 +495,14 @@ func checkRecord(m *mon.M, r *vrand.Rand, ref *refavc.Record, label string, i in
 		}
 		compareRecordBytes(m, "record", b, want, high, scope, rep)
 		// bytes -> value: unmarshal(marshal(x)) == x
+		bCopy, yWas := append([]byte(nil), b...), false
 		y := avc.NewAVCDecoderConfigurationRecord()
-		if err := y.UnmarshalBinary(b); err != nil {
+		if err := y.UnmarshalBinary(append([]byte(nil), b...)); err != nil {
 			m.Violationf("c12:own-record-rejected"+scope, rep, "unmarshal of own bytes failed: %v", firstLine(err))
 		} else if d := diffRecord(y, ref); d != "" {
 			m.Violationf("c12:record-roundtrip-differs:"+fieldOf(d)+scope, rep, "unmarshal(marshal(x)) != x: %s", d)
+		} else {
+			yWas = true
 		}
 		// canonical bytes -> value -> bytes
 		z := avc.NewAVCDecoderConfigurationRecord()
@@ -517,6 +520,13 @@ func checkRecord(m *mon.M, r *vrand.Rand, ref *refavc.Record, label string, i in
 		} else {
 			compareRecordBytes(m, "remarshal", b2, want, high, scope, rep)
 		}
+		if !bytes.Equal(b, bCopy) {
+			m.Violationf("c12:earlier-result-changed-by-a-later-call:record", rep, "the bytes MarshalBinary returned first were changed by the later unmarshal/marshal calls")
+		}
+		if yWas && diffRecord(y, ref) != "" {
+			m.Violationf("c12:earlier-result-changed-by-a-later-call:record", rep, "the first unmarshalled record was changed by the later calls: %s", diffRecord(y, ref))
+		}
+		m.Count("earlier_results_rechecked", 2)
 		// reference records with the High-profile tail: same base values, same base bytes on the common prefix
 		if high {
 			re := *ref
@@ -697,11 +707,14 @@ func checkSample(m *mon.M, ls int, nals [][]byte, i int) {
 			}
 			m.Violationf("c12:sample-bytes-differ"+scope, rep, "marshalled sample (%d bytes) differs from the ISO layout (%d bytes), first at offset %d: %s vs %s", len(b), len(want), at, mon.Hex(b), mon.Hex(want))
 		}
+		bWas, yWas := bytes.Equal(b, want), false
 		y := avc.NewAVCSample(uint8(ls - 1))
-		if err := y.UnmarshalBinary(b); err != nil {
+		if err := y.UnmarshalBinary(append([]byte(nil), b...)); err != nil {
 			m.Violationf("c12:own-sample-rejected"+scope, rep, "unmarshal of own bytes failed: %v", firstLine(err))
 		} else if got, ok := nalList(y.NALUs); !ok || !equalLists(got, nals) {
 			m.Violationf("c12:sample-roundtrip-differs"+scope, rep, "unmarshal(marshal(x)) != x: %d units vs %d", len(y.NALUs), len(nals))
+		} else {
+			yWas = true
 		}
 		z := avc.NewAVCSample(uint8(ls - 1))
 		if err := z.UnmarshalBinary(want); err != nil {
@@ -715,6 +728,16 @@ func checkSample(m *mon.M, ls int, nals [][]byte, i int) {
 		if b2, err := z.MarshalBinary(); err != nil || !bytes.Equal(b2, want) {
 			m.Violationf("c12:sample-remarshal-differs"+scope, rep, "marshal(unmarshal(canonical)) differs (err %v): %d vs %d bytes", err, len(b2), len(want))
 		}
+		// what the earlier calls returned is the caller's: the later calls above must not have changed it
+		if bWas && !bytes.Equal(b, want) {
+			m.Violationf("c12:earlier-result-changed-by-a-later-call:sample", rep, "the bytes MarshalBinary returned first were changed by the later unmarshal/marshal calls")
+		}
+		if yWas {
+			if got, ok := nalList(y.NALUs); !ok || !equalLists(got, nals) {
+				m.Violationf("c12:earlier-result-changed-by-a-later-call:sample", rep, "the units of the first unmarshalled sample were changed by the later unmarshal/marshal calls")
+			}
+		}
+		m.Count("earlier_results_rechecked", 2)
 	})
 }
 
